@@ -24,14 +24,20 @@ inductive ListOp where
   | insert (i : Int) (x : Expr)
   | pop (i : Int)
   | removeAt (i : Int)             -- args.remove(args[i]): the first argument with that text
+  | set (i : Int) (x : Expr)       -- args[i] = x
   | reverse
   | clear
-  | slice (lo hi : Int)            -- args[lo:hi]
+  | slice (lo hi : Option Int)     -- args[lo:hi] (a bound may be omitted)
   | perm (idx : List Nat)          -- [args[i] for i in idx]
   | same                           -- the list itself put back
+  | guard (g r : ListOp)           -- `g` is carried out on something else and must not raise; result `r`
+  | within (lo hi : Option Int) (k : ListOp)   -- `k` carried out on the copy args[lo:hi]; its result
   deriving Repr
 
-/-- The operation on a plain Python list; `none` = the operation raises. -/
+/-- The operation on a plain Python list; `none` = the operation raises.  A slice is a copy:
+`keep = args[lo:hi]; <g on args>; args = keep` is `guard g (slice lo hi)`, and
+`keep = args[lo:hi]; <k on keep>` leaves the list alone (`guard (within lo hi k) same`) until
+`args = keep` (`within lo hi k`). -/
 def ListOp.apply : ListOp → List Expr → Option (List Expr)
   | .extend xs, l => some (l ++ xs)
   | .insert i x, l => some (pyInsert l i x)
@@ -39,11 +45,16 @@ def ListOp.apply : ListOp → List Expr → Option (List Expr)
   | .removeAt i, l => match pyGet l i with
     | some a => (idxOfTxt ser (ser a) l).map l.eraseIdx
     | none => none
+  | .set i x, l => (pyIndex l.length i).map (fun k => l.set k x)
   | .reverse, l => some l.reverse
   | .clear, _ => some []
-  | .slice lo hi, l => some (pySlice l (some lo) (some hi))
+  | .slice lo hi, l => some (pySlice l lo hi)
   | .perm idx, l => idx.mapM (fun i => l[i]?)
   | .same, l => some l
+  | .guard g r, l => match g.apply l with
+    | some _ => r.apply l
+    | none => none
+  | .within lo hi k, l => k.apply (pySlice l lo hi)
 
 /-- The edit that the operation amounts to on the current document (`none`: no such node, or
 the list operation raises). -/
